@@ -21,46 +21,89 @@ import (
 // Mode is the SSA builder mode the analyser's command line uses.
 const Mode = ssa.InstantiateGenerics
 
-// Source loads an import-free program from source text (file name -> text).
+// Source loads a program from source text (file name -> text) without running `go list`. Files in the root
+// directory form the main package ("command-line-arguments"); files in a subdirectory d form the package with import
+// path "m/d", which the other packages may import. No other imports are allowed.
 func Source(files map[string]string) (*ssa.Program, []*packages.Package, error) {
 	fset := token.NewFileSet()
-	var names []string
+	byDir := map[string][]string{}
 	for n := range files {
-		names = append(names, n)
+		d := filepath.Dir(n)
+		if d == "." {
+			d = ""
+		}
+		byDir[d] = append(byDir[d], n)
 	}
-	sort.Strings(names)
-	var syntax []*ast.File
-	for _, n := range names {
-		f, err := parser.ParseFile(fset, n, files[n], parser.ParseComments|parser.SkipObjectResolution)
+	var dirs []string
+	for d := range byDir {
+		dirs = append(dirs, d)
+	}
+	// library packages first (they may not import each other in a cycle; one level is what the generators use),
+	// the main package last
+	sort.Slice(dirs, func(i, j int) bool {
+		if (dirs[i] == "") != (dirs[j] == "") {
+			return dirs[j] == ""
+		}
+		return dirs[i] < dirs[j]
+	})
+	typed := map[string]*types.Package{}
+	loaded := map[string]*packages.Package{}
+	imp := importerFunc(func(path string) (*types.Package, error) {
+		if p, ok := typed[path]; ok {
+			return p, nil
+		}
+		return nil, fmt.Errorf("load.Source: import %q is not part of the program", path)
+	})
+	var mainPkg *packages.Package
+	var all []*packages.Package
+	for _, d := range dirs {
+		names := byDir[d]
+		sort.Strings(names)
+		var syntax []*ast.File
+		for _, n := range names {
+			f, err := parser.ParseFile(fset, n, files[n], parser.ParseComments|parser.SkipObjectResolution)
+			if err != nil {
+				return nil, nil, err
+			}
+			syntax = append(syntax, f)
+		}
+		info := &types.Info{
+			Types:      map[ast.Expr]types.TypeAndValue{},
+			Defs:       map[*ast.Ident]types.Object{},
+			Uses:       map[*ast.Ident]types.Object{},
+			Implicits:  map[ast.Node]types.Object{},
+			Instances:  map[*ast.Ident]types.Instance{},
+			Scopes:     map[ast.Node]*types.Scope{},
+			Selections: map[*ast.SelectorExpr]*types.Selection{},
+		}
+		path := "command-line-arguments"
+		if d != "" {
+			path = "m/" + filepath.ToSlash(d)
+		}
+		conf := types.Config{GoVersion: "go1.22", Sizes: types.SizesFor("gc", "amd64"), Importer: imp}
+		tpkg, err := conf.Check(path, fset, syntax, info)
 		if err != nil {
 			return nil, nil, err
 		}
-		if len(f.Imports) > 0 {
-			return nil, nil, fmt.Errorf("load.Source: program has imports")
+		typed[path] = tpkg
+		pkg := &packages.Package{
+			ID: path, Name: tpkg.Name(), PkgPath: path,
+			GoFiles: names, CompiledGoFiles: names, Imports: map[string]*packages.Package{},
+			Types: tpkg, Fset: fset, Syntax: syntax, TypesInfo: info, TypesSizes: conf.Sizes,
 		}
-		syntax = append(syntax, f)
+		for _, ip := range tpkg.Imports() {
+			pkg.Imports[ip.Path()] = loaded[ip.Path()]
+		}
+		loaded[path] = pkg
+		all = append(all, pkg)
+		if d == "" {
+			mainPkg = pkg
+		}
 	}
-	info := &types.Info{
-		Types:      map[ast.Expr]types.TypeAndValue{},
-		Defs:       map[*ast.Ident]types.Object{},
-		Uses:       map[*ast.Ident]types.Object{},
-		Implicits:  map[ast.Node]types.Object{},
-		Instances:  map[*ast.Ident]types.Instance{},
-		Scopes:     map[ast.Node]*types.Scope{},
-		Selections: map[*ast.SelectorExpr]*types.Selection{},
+	if mainPkg == nil {
+		return nil, nil, fmt.Errorf("load.Source: no main package")
 	}
-	conf := types.Config{GoVersion: "go1.22", Sizes: types.SizesFor("gc", "amd64")}
-	tpkg, err := conf.Check("command-line-arguments", fset, syntax, info)
-	if err != nil {
-		return nil, nil, err
-	}
-	tpkg.SetName("main")
-	pkg := &packages.Package{
-		ID: "command-line-arguments", Name: "main", PkgPath: "command-line-arguments",
-		GoFiles: names, CompiledGoFiles: names, Imports: map[string]*packages.Package{},
-		Types: tpkg, Fset: fset, Syntax: syntax, TypesInfo: info, TypesSizes: conf.Sizes,
-	}
-	pkgs := []*packages.Package{pkg}
+	pkgs := []*packages.Package{mainPkg}
 	prog, spkgs := ssautil.AllPackages(pkgs, Mode)
 	for _, p := range spkgs {
 		if p == nil {
@@ -70,6 +113,10 @@ func Source(files map[string]string) (*ssa.Program, []*packages.Package, error) 
 	prog.Build()
 	return prog, pkgs, nil
 }
+
+type importerFunc func(path string) (*types.Package, error)
+
+func (f importerFunc) Import(path string) (*types.Package, error) { return f(path) }
 
 // Dir loads the main package in dir (or the listed files) through the analyser's loader.
 func Dir(dir string, files []string) (*ssa.Program, []*packages.Package, error) {
